@@ -7,7 +7,7 @@ import contracts.postoffice as PO
 
 PROVED = [ST.saver_save, ST.saver_close, ST.save_from, ST.read_and_format, ST.read_format_split, ST.get_splits, PO.spy_save_chunk, PO.spy_receive, PO.spy_close,
           ST.rechunker_receive_empty, ST.rechunker_receive_cached, ST.rechunker_flush_cached, ST.rechunker_flush_empty,
-          ST.save_file_str, ST._save_file_c]
+          ST.save_file_str, ST._save_file_c, ST.filesaver_save_chunk]
 
 PROPERTY = Property(
     "C03", "proof",
